@@ -155,6 +155,9 @@ func customerRatesWithAddon(data []byte) bool {
 		Tags     []string `json:"$tags"`
 		Addons   []string `json:"$addons"`
 		Regime   string   `json:"$regime"`
+		Tax      *struct {
+			Tags []string `json:"tags"` // the earlier place of the tags, still read and moved to $tags
+		} `json:"tax"`
 		Supplier *struct {
 			TaxID *struct {
 				Country string `json:"country"`
@@ -169,12 +172,18 @@ func customerRatesWithAddon(data []byte) bool {
 		return false
 	}
 	tags, addons := d.Tags, d.Addons
+	if d.Tax != nil {
+		tags = append(tags, d.Tax.Tags...)
+	}
 	pt := func(h *head) bool {
 		return h.Regime == "PT" || (h.Regime == "" && h.Supplier != nil && h.Supplier.TaxID != nil && h.Supplier.TaxID.Country == "PT")
 	}
 	isPT := pt(&d.head)
 	if d.Doc != nil {
 		tags, addons = append(tags, d.Doc.Tags...), append(addons, d.Doc.Addons...)
+		if d.Doc.Tax != nil {
+			tags = append(tags, d.Doc.Tax.Tags...)
+		}
 		isPT = isPT || pt(d.Doc)
 	}
 	has := false
